@@ -87,6 +87,8 @@ def judge(chk, case, ending, expect, accept_killed, mech):
     if probs:
         probs = sorted(set(probs), key=probs.index)
         key = '%s:%s:%s' % (probs[0], kind_of(cls), mech)
+        if mech == 'terminate@stdlib-lock-internals':
+            key = 'terminate-inside-stdlib-lock-internals:%s' % kind_of(cls)
         chk.violation(key, '%s ending=%s: %s; first observation %s' % (cls, ending, ', '.join(probs), short(first, 260)), lp.witness(case, dg))
     return sh
 
@@ -169,6 +171,8 @@ def terminate_matrix(chk, tier):
         # a terminate request may turn a successful run into a WTE failure and vice versa: accept both
         exp = c['own']
         mech = 'terminate@%s/%s' % (block, lp.where_lib(dg['point']) if block == 'outside-run' else region)
+        if lp.stdlib_internal(dg['point']):
+            mech = 'terminate@stdlib-lock-internals'
         judge_term(chk, c, exp, accept_killed, mech)
 
 
